@@ -214,7 +214,8 @@ def runendJudge (kind fault impl : String) : String :=
       s!"fail:hang:{kind}: Run returned ({kvOf impl "run"}) but Acquire still blocks: the sink was not closed (fault: {fault})"
     else v
   | none =>
-    if containsSub impl "end=ctor-err" then "ok"
+    if containsSub impl "oom-guard" then "skip:oom-guard"   -- the harness's own memory guard (a file announcing a huge size): not run
+    else if containsSub impl "end=ctor-err" then "ok"
     else if kvOf impl "end" != "closed" then s!"fail:driver:observation without end=closed: {impl.take 60}"
     else if (fault == "missing" || fault == "perm") && kvOf impl "run" == "ok" then
       s!"fail:accepted:{kind}: an ammo file that cannot be opened ({fault}) was accepted: {impl.take 60}"
